@@ -49,11 +49,12 @@ def run(ctx):
     # TRACE: wide-domain charts, sorted and with sections reordered in several ways
     cases = []
     for k in range(ctx.pick(200, 5000)):
-        res, tempo, pts = tm.seeded_map(r, max_segments=ctx.pick(8, 40))
+        res, tempo, pts = tm.seeded_map(r, max_segments=ctx.pick(24, 64))
         base = tm.chart_case_from_map(r, f"C11-s{k}", res, tempo, pts)
         nb = len(tempo)
         lk = []
-        for t in r.sample(pts, min(len(pts), 8)):
+        # (always: the last tempo change, the tick before it and the farthest tick, whatever the number of tempo events)
+        for t in sorted(set(r.sample(pts, min(len(pts), 8)) + [pts[-1], tempo[-1][0], max(0, tempo[-1][0] - 1)])):
             for h in sorted({0, nb - 1, nb, nb + 1, r.randrange(0, nb + 1), r.randrange(0, nb + 1)}):
                 lk.append((t, h))
         base["lookups"] = lk
